@@ -173,6 +173,10 @@ def register_reg():
         _reg_done[0] = True
 
 
+class RegSub(Reg):
+    """not registered itself: covered through its registered superclass"""
+
+
 VALUES = {
     'int': lambda: 7,
     'list': lambda: [1, 'two', (3,)],
@@ -180,6 +184,7 @@ VALUES = {
     'str': lambda: 'some words to split here',
     'nested': lambda: [[1, 2, 3], [4, 5, 6]],
     'reg': lambda: Reg([1, 2]),
+    'regsub': lambda: RegSub({'k': (1,)}),
 }
 
 
@@ -299,6 +304,8 @@ def cases(tier, seed):
                             'budget': 90.0 if tier == 'quick' else 300.0, 'twin': n == 1})
     out.append({'name': 'agree:reg:pretty_repr', 'family': 'agree',
                 'params': {'value': 'reg', 'entry': 'pretty_repr', 'slice': 'default'}, 'budget': 60.0})
+    out.append({'name': 'agree:regsub:pretty_repr', 'family': 'agree',
+                'params': {'value': 'regsub', 'entry': 'pretty_repr', 'slice': 'default'}, 'budget': 60.0})
     return out
 
 
